@@ -278,6 +278,44 @@ def validate_obs(run, module, obs, label='obs', constants=None, timeout=3000):
     return verdicts
 
 
+def validate_hist(run, traces, label='hist', constants=None, timeout=3000, engine='hist'):
+    """traces: list of {'tid', 'ev', 'case'}; validated by Trace_Hist.  Book-keeps and reports."""
+    if not traces:
+        return
+    tf = os.path.join(scratch(), 'hist_%s_%d.ndjson' % (label, len(os.listdir(scratch()))))
+    with open(tf, 'w') as f:
+        for t in traces:
+            f.write(json.dumps({'tid': t['tid'], 'ev': t['ev']}, ensure_ascii=True) + '\n')
+    cfg = os.path.join(scratch(), 'hist_%s.cfg' % label)
+    with open(cfg, 'w') as f:
+        f.write('SPECIFICATION HSpec\nINVARIANT Verdict\nCHECK_DEADLOCK FALSE\nCONSTANTS\n')
+        f.write('  Parsers = {"p1", "p2", "p3"}\n')
+        for k, v in (constants or {}).items():
+            f.write('  %s = %s\n' % (k, v))
+    r = run_tlc('Trace_Hist.tla', cfg, env={'TRACE_FILE': tf}, timeout=timeout)
+    run.add_tlc('Trace_Hist[%s]' % label, r)
+    acc, rej = set(), {}
+    for v in printed_values(r.out):
+        if v[0] == 'ACC':
+            acc.add(v[1])
+        elif v[0] == 'REJ':
+            rej[v[1]] = v[2]
+    for t in traces:
+        run.traces += 1
+        run.evaluations += sum(1 for e in t['ev'] if e['e'] == 'parse')
+        run.distinct.add(json.dumps(t['case'], sort_keys=True))
+        if t['tid'] in acc:
+            continue
+        if t['tid'] not in rej:
+            raise MachineryError('Trace_Hist printed no verdict for history %s' % t['tid'])
+        why = rej[t['tid']]
+        first = why[0]
+        e = t['ev'][first[0] - 1]
+        run.violation(t['case'], 'bad: history event %d (%s %s) fails clauses %s | observed %s' % (
+            first[0], e['e'], e.get('formula', e.get('name', '')), first[1:],
+            json.dumps(e.get('out', e.get('tries', '')))[:300]), engine=engine)
+
+
 def tally(run, obs, verdicts, engine, nontrivial=None, key=None):
     """Book-keeping common to the functional checks."""
     for o in obs:
